@@ -12,7 +12,7 @@ import os
 from pathlib import Path
 
 from .ir import TranslateError
-from .kernel import (Closure, Executor, Num, Obj, Prim, Sc, Static, Vec, fail, find_function, lift, materialise, run_function, term_of,
+from .kernel import (Closure, Executor, Num, Obj, Prim, Sc, Static, Vec, fail, find_function, lift, materialise, run_function, set_carrier, term_of,
                      to_sc)
 
 
@@ -51,7 +51,8 @@ def O(name):
 class Kernel:
     """one generated definition group: a source function and the Coq definitions printed from its symbolic result"""
 
-    def __init__(self, name, file, cls, func, bindings, params, outputs, prims=None, variables=(), module_funcs=()):
+    def __init__(self, name, file, cls, func, bindings, params, outputs, prims=None, variables=(), module_funcs=(), carrier="R"):
+        self.carrier = carrier
         self.name, self.file, self.cls, self.func = name, file, cls, func
         self.bindings = bindings          # callable () -> dict parameter name -> symbolic value
         self.params = params              # Coq binder text of the generated definitions
@@ -100,7 +101,104 @@ def _gae_out(res, ex):
     return [("advantages", "list R", term_of(res.fields["advantages"])), ("returns", "list R", term_of(res.fields["returns"]))]
 
 
+def ctor_prim(file, cls):
+    """constructor call of a lerax record class -> Obj; the positional order is read from the class's __init__ (or its annotated
+    fields when it has none) in the source under translation"""
+    def f(ex, n, args, kwargs):
+        tree = ast.parse((src_root() / file).read_text())
+        cs = [c for c in tree.body if isinstance(c, ast.ClassDef) and c.name == cls]
+        if len(cs) != 1:
+            fail(n, f"class {cls} not found")
+        inits = [m for m in cs[0].body if isinstance(m, ast.FunctionDef) and m.name == "__init__"]
+        if inits:
+            names = [a.arg for a in inits[0].args.args[1:]]
+            for st in inits[0].body:      # only `self.x = jnp.asarray(x)` / `self.x = x` initialisers are understood
+                if isinstance(st, ast.Expr) and isinstance(st.value, ast.Constant):
+                    continue
+                ok = (isinstance(st, ast.Assign) and len(st.targets) == 1 and isinstance(st.targets[0], ast.Attribute)
+                      and ast.unparse(st.targets[0]) == "self." + st.targets[0].attr
+                      and ast.unparse(st.value) in (st.targets[0].attr, f"jnp.asarray({st.targets[0].attr})"))
+                if not ok:
+                    fail(st, f"{cls}.__init__ does more than store its arguments")
+        else:
+            names = [m.target.id for m in cs[0].body if isinstance(m, ast.AnnAssign) and isinstance(m.target, ast.Name)]
+        if len(args) > len(names) or any(k not in names for k in kwargs):
+            fail(n, f"constructor call of {cls} does not match its fields {names}")
+        fields = dict(zip(names, args))
+        for k, v in kwargs.items():
+            if k in fields:
+                fail(n, f"field {k} given twice")
+            fields[k] = v
+        if set(fields) != set(names):
+            fail(n, f"constructor call of {cls} leaves fields unset")
+        return Obj(fields, cls)
+    return Prim(f)
+
+
+# ------------------------------------------------------------------------------------------------ C19: logging EMA
+LFIELDS = [("step", "Z"), ("episode_return", "R"), ("episode_length", "Z"), ("episode_done", "B"), ("average_return", "R"),
+           ("average_length", "R")]
+
+
+def _lnext_bind():
+    return {"self": Obj({"step": Z("(l_step s)"), "episode_return": R("(l_ret s)"), "episode_length": Z("(l_len s)"),
+                         "episode_done": B("(l_done s)"), "average_return": R("(l_avg_ret s)"), "average_length": R("(l_avg_len s)")},
+                        "LoggingCallbackStepState"),
+            "reward": R("r"), "done": B("d"), "alpha": R("alpha")}
+
+
+def _lnext_out(res, ex):
+    if not (isinstance(res, Obj) and set(res.fields) == {f for f, _ in LFIELDS}):
+        raise TranslateError("next() no longer returns a LoggingCallbackStepState")
+    return [(f, {"Z": "Z", "R": "Q", "B": "bool"}[ty], term_of(res.fields[f], ty)) for f, ty in LFIELDS]
+
+
+# ------------------------------------------------------------------------------------------------ C06: replay ring
+def vecO(name):
+    return Vec.base(name, "O")
+
+
+RB_FIELDS = [("observations", "f_obs", "O", "Ob"), ("next_observations", "f_next", "O", "Ob"), ("actions", "f_act", "O", "Ac"),
+             ("rewards", "f_rew", "R", "Q"), ("dones", "f_done", "B", "bool"), ("timeouts", "f_timeout", "B", "bool"),
+             ("states", "f_ps", "O", "Ps"), ("next_states", "f_nps", "O", "Ps")]
+
+
+def _rb_self():
+    f = {py: Vec.base(f"({coq} b)", ety) for py, coq, ety, _ in RB_FIELDS}
+    f.update({"position": Z("(Z.of_nat (b_pos b))"), "size": Z("(Z.of_nat (b_size b))"), "action_masks": Static(None)})
+    return Obj(f, "ReplayBuffer")
+
+
+def _rb_add_bind():
+    return {"self": _rb_self(), "observation": O("(t_obs x)"), "next_observation": O("(t_next x)"), "action": O("(t_act x)"),
+            "reward": R("(t_rew x)"), "done": B("(t_done x)"), "timeout": B("(t_timeout x)"), "state": O("(t_ps x)"),
+            "next_state": O("(t_nps x)"), "action_mask": Static(None)}
+
+
+def _rb_add_out(res, ex):
+    if not isinstance(res, Obj):
+        raise TranslateError("add no longer returns the buffer")
+    if term_of(res.fields["size"]) != "(Z.of_nat (b_size b))" or not isinstance(res.fields["action_masks"], Static):
+        raise TranslateError("add changes the capacity or the masks")
+    outs = [("position", "Z", term_of(res.fields["position"], "Z"))]
+    for py, coq, ety, cty in RB_FIELDS:
+        outs.append((py, f"list {cty}", term_of(res.fields[py])))
+    return outs
+
+
+def _rb_cs_out(res, ex):
+    return [("value", "Z", term_of(res, "Z"))]
+
+
 KERNELS = {
+    "C06": [Kernel("add", "buffer/replay.py", "ReplayBuffer", "add", _rb_add_bind,
+                   "{Ob Ac Ps : Type} (b : @soa Ob Ac Ps) (x : @trow Ob Ac Ps)", _rb_add_out, carrier="Q",
+                   prims={"eqx.tree_at": Prim(_tree_at)}),
+            Kernel("current_size", "buffer/replay.py", "ReplayBuffer", "current_size", lambda: {"self": _rb_self()},
+                   "{Ob Ac Ps : Type} (b : @soa Ob Ac Ps)", _rb_cs_out, carrier="Q")],
+    "C19": [Kernel("lnext", "callback/logging/callback.py", "LoggingCallbackStepState", "next", _lnext_bind,
+                   "(alpha : Q) (s : lstate) (r : Q) (d : bool)", _lnext_out, carrier="Q",
+                   prims={"LoggingCallbackStepState": ctor_prim("callback/logging/callback.py", "LoggingCallbackStepState")})],
     "C03": [Kernel("gae", "buffer/rollout.py", "RolloutBuffer", "compute_returns_and_advantages", _gae_bind,
                    "(gam lam last : R) (rewards values : list R) (dones : list bool)", _gae_out,
                    prims={"eqx.tree_at": Prim(_tree_at)})],
@@ -115,6 +213,7 @@ def translate(pid):
         path = src_root() / k.file
         try:
             fn, sha = find_function(path, k.cls, k.func)
+            set_carrier(k.carrier)
             ex = Executor(prims=k.prims)
             scope = {}
             if k.module_funcs:
@@ -131,7 +230,7 @@ def translate(pid):
 
 HEADER = """(* GENERATED by harness/translate/kernels.py from the lerax source.  DO NOT EDIT: the {pid} check regenerates this
    file on every run and re-checks coq/link/{pid}_link.v against it. *)
-From Coq Require Import Reals List ZArith Bool.
+From Coq Require Import Reals List ZArith QArith Qminmax Bool.
 From Lerax Require Import KBase{imports}.
 Import ListNotations.
 """
@@ -152,7 +251,7 @@ def coq_text(pid, imports=()):
     return "\n".join(parts)
 
 
-IMPORTS = {}
+IMPORTS = {"C19": ("Logging",), "C06": ("Replay",)}
 
 
 def generate(pid, coq_dir: Path):
